@@ -12,11 +12,11 @@ import shutil
 
 import numpy as np
 
-from .. import core, parsers
+from .. import argguard, core, parsers
 
 PROPS = ["C15_SortPermutes", "C15_RemoveSubsequence", "C15_Interleave", "C15_FlipAxis", "C15_CropCentral",
          "C15_BinBlockMeans", "C15_ReturnsResult", "C15_FileHoldsResult"]
-INVS = ["TypeOK", "C15_FlipInvolution", "C15_OrderAgnostic"]
+INVS = ["TypeOK", "C15_FlipInvolution", "C15_FlipsCommute", "C15_OrderAgnostic"]
 NP = {"f32": np.float32, "i16": np.int16}
 PARSER_NAME = {"f32": "float32", "i16": "int16"}
 CLAUSE = {"sort": "C15_SortPermutes", "remove": "C15_RemoveSubsequence", "split": "C15_Interleave",
@@ -50,6 +50,9 @@ def affine(aseed, dtype, trange):
     else:
         a = rng.choice([0.25, -0.25, 1.5, -1.0, 1.0, 3.0, 0.125])
         b = rng.choice([0.0, 0.5, -7.25, 1024.0])
+        if rng.random() < 0.15:
+            # tiny and huge magnitudes: a power of two keeps a * t (and block means of it) exact in float32
+            a, b = rng.choice([2.0 ** -100, -2.0 ** -100, 2.0 ** 100, -2.0 ** 90, 2.0 ** -30]), 0.0
     return a, b
 
 
@@ -76,6 +79,36 @@ def to_array(nested, ab, dtype):
     a, b = ab
     arr = np.array(nested, dtype=np.float64) * a + b
     return arr.astype(NP[dtype])
+
+
+ALL_AF = ["c", "f", "view", "ro"]
+
+
+def stored(arr, af):
+    """the same stack array in another storage form"""
+    if af == "f":
+        return np.asfortranarray(arr)
+    if af == "view":
+        big = np.zeros(tuple(2 * n + 1 for n in arr.shape), dtype=arr.dtype)
+        big[1::2, 1::2, 1::2] = arr
+        return big[1::2, 1::2, 1::2]
+    out = np.ascontiguousarray(arr).copy()
+    if af == "ro":
+        out.setflags(write=False)
+    return out
+
+
+def aside_calls(root, variant):
+    """Dimension 'call history': other public functions of the module, with non-default options, on another stack."""
+    from cryocat import tiltstack
+    a = np.arange(3 * 4 * 5, dtype=np.float32).reshape(3, 4, 5) + 0.5
+    side = os.path.join(root, "aside_%d.mrc" % variant)
+    tiltstack.flip_along_axes(a, ["z", "y"], input_order="zyx", output_order="xyz", output_file=side)
+    tiltstack.crop(side, new_width=3, new_height=2, output_order="zyx")
+    tiltstack.sort_tilts_by_angle(a, [30.0, -10.0, 5.0], input_order="zyx")
+    tiltstack.remove_tilts(a.transpose(2, 1, 0), [0], numbered_from_1=False, output_order="zyx")
+    tiltstack.bin(a[:, :, :4], 2, input_order="zyx")
+    os.remove(side)
 
 
 def to_values(flat, ab, dtype):
@@ -182,7 +215,8 @@ def perform(op, stack_in, outdir, variant, rng):
 
 def sig_of(rec):
     op = rec["op"]
-    return {"op": op["name"], "io": op["io"], "oo": op["oo"], "src": op["src"], "outf": op["outf"], "dtype": rec["dtype"]}
+    return {"op": op["name"], "io": op["io"], "oo": op["oo"], "src": op["src"], "outf": op["outf"], "dtype": rec["dtype"],
+            "af": op.get("af", "c")}
 
 
 def compare(ctx, rec, rets, outs, outdir, ab, case, allowed_files):
@@ -285,7 +319,7 @@ def run_chain(ctx, recs, variant, aseed, live=True):
             if live and prev and prev["op"]["oo"] == op["io"] and isinstance(prev["rets"][kept], np.ndarray):
                 stack_in = prev["rets"][kept]
             else:
-                stack_in = to_array(rec["inp"]["arr"], ab, dtype)
+                stack_in = stored(to_array(rec["inp"]["arr"], ab, dtype), op.get("af", "c"))
         else:
             if live and prev and prev["outs"]:
                 stack_in = prev["outs"][kept]
@@ -295,7 +329,18 @@ def run_chain(ctx, recs, variant, aseed, live=True):
                 parsers.write_mrc(stack_in, tuple(doc["dims"]), PARSER_NAME[doc["mode"]], to_values(doc["data"], ab, dtype))
                 allowed.add("input.mrc")
         allowed |= {"angles.tlt", "angles.rawtlt", "remove.txt"}
+        if (variant + k) % 4 == 1:
+            _, err = core.call_guarded(aside_calls, root, variant + k)
+            if err is not None:
+                ctx.fail("call_raises", "interleaved flip / crop / sort / remove / bin sequence: %s" % err, case, {"op": "aside"})
+                break
+        guard = argguard.Guard(stack=stack_in if isinstance(stack_in, np.ndarray) else None)
         result, err = core.call_guarded(perform, op, stack_in, outdir, variant + k, rng)
+        why = guard.changed()
+        if why:
+            ctx.fail("C15_ArgumentsKept", "call %d %s changed the stack it was given - %s" % (k + 1, op["name"], why), case,
+                     dict(sig_of(rec), argument_modified=True))
+            break
         if err is not None:
             ctx.fail("call_raises", "call %d %s: %s" % (k + 1, {x: op[x] for x in op if x not in ("ranks",)}, err), case,
                      sig_of(rec))
@@ -374,7 +419,7 @@ def gen_case(rng, nmax, smax, maxops):
             choices = [c for c in choices if c != "remove"] or ["flip"]
         name = rng.choice(choices)
         op = {"name": name, "src": rng.choice(["array", "array", "file"]), "oo": rng.choice(ORD),
-              "outf": rng.random() < 0.6}
+              "outf": rng.random() < 0.6, "af": rng.choice(ALL_AF)}
         op["io"] = prev_oo if (prev_oo and rng.random() < 0.7) else rng.choice(ORD)
         if name == "sort":
             ranks = list(range(1, n + 1))
@@ -391,7 +436,7 @@ def gen_case(rng, nmax, smax, maxops):
             op["keep"] = rng.choice(["even", "odd"])
             n = (n + 1) // 2 if op["keep"] == "even" else n // 2
         elif name == "flip":
-            op["axes"] = rng.choice([["x"], ["y"], ["z"], ["x", "y"], ["z", "x"], ["y", "z"]])
+            op["axes"] = [rng.choice("xyz") for _ in range(rng.choice([1, 1, 2, 2, 3]))]
         elif name == "crop":
             # every size 1..length in all four parity combinations; width only / height only / both (0 = not given)
             w2 = rng.choice([0, 0] + list(range(1, w + 1)) + [w, 1])
@@ -412,10 +457,35 @@ def gen_case(rng, nmax, smax, maxops):
     return case
 
 
-def write_params(ctx, name, cases):
+def sweep_cases(rng, nmax):
+    """Exhaustive small sweep: every tilt count 2..nmax, each with a cheap sort -> remove -> split sequence on 4x5 images
+    (1 tilt is outside the quantifier: the split of a single image raises by design)."""
+    out = []
+    for n in range(2, nmax + 1):
+        ranks = list(range(1, n + 1))
+        rng.shuffle(ranks)
+        ops = [{"name": "sort", "ranks": ranks, "io": "xyz", "oo": "zyx", "src": "array", "outf": n % 2 == 0, "af": rng.choice(ALL_AF)}]
+        m = n
+        if n >= 3:
+            base = n % 2
+            k = 1 + (n % 3 if n - 1 - n % 3 >= 2 else 0)
+            pos = sorted(rng.sample(range(1, n + 1), k))
+            ops.append({"name": "remove", "idx": [q - (1 - base) for q in pos], "base": base, "io": "zyx", "oo": "xyz",
+                        "src": "file" if n % 2 == 0 else "array", "outf": True, "af": rng.choice(ALL_AF)})
+            m = n - k
+        ops.append({"name": "split", "keep": "even", "io": "xyz", "oo": "xyz", "src": "array", "outf": n % 3 == 0,
+                    "af": rng.choice(ALL_AF)})
+        if (m + 1) // 2 >= 2:
+            ops.append({"name": "flip", "axes": ["z", "z", "y"], "io": "xyz", "oo": "zyx", "src": "array", "outf": False,
+                        "af": rng.choice(ALL_AF)})
+        out.append({"n": n, "h": 4, "w": 5, "kind": "uniq", "f": 1, "dtype": "f32" if n % 2 else "i16", "ops": ops})
+    return out
+
+
+def write_params(ctx, name, cases, forms=("c",)):
     path = os.path.join(ctx.sub("params"), name + ".json")
     with open(path, "w") as fh:
-        json.dump({"cases": cases}, fh)
+        json.dump({"cases": cases, "forms": list(forms)}, fh)
     return path
 
 
@@ -428,7 +498,9 @@ def run(ctx):
                 "L2: those transitions (sub-sampled by seed) and seeded call sequences on stacks of 2..25 tilts, sizes 4..40 "
                 "are executed; inputs and expected outputs are the ones TLC emitted. distinct = distinct (call sequence, "
                 "interpretation) cases")
-    ctx.assumptions += ["interpretation gamma: pixel token t -> a*t + b (injective, exact in float32 / int16, linear so "
+    ctx.assumptions += ["frame conditions judged with mbt/argguard.py: the stack array, the angle and the index objects handed in "
+                        "are unchanged after the call (values, dtype, layout, writeability); earlier results stay what they were",
+                        "interpretation gamma: pixel token t -> a*t + b (injective, exact in float32 / int16, linear so "
                         "block means carry over); tilt angles = distinct values >= 0.01 apart realising the rank vector",
                         "centre convention floor(N/2): the central crop window of length n has its centre index n//2 on the "
                         "image centre N//2 (start = N//2 - n//2), claimed for all four parity combinations on both axes",
@@ -438,7 +510,9 @@ def run(ctx):
                         "flip axes follow the documented IMOD meaning (clip flipx reverses the rows, flipy the columns, "
                         "flipz the tilt order); the property's own wording only requires the involution",
                         "independent MRC reader / writer of mbt/parsers.py is trusted"]
-    p0 = write_params(ctx, "none", [])
+    forms = [ctx.rng.choice(ALL_AF)] if ctx.quick else ALL_AF
+    ctx.extra["array_forms_enum"] = forms
+    p0 = write_params(ctx, "none", [], forms)
     env0 = {"C15_PARAMS": p0}
 
     if not only or "small" in only:
@@ -494,11 +568,14 @@ def run(ctx):
         nchain = 0
         for bi, (count, nmax, smax, maxops) in enumerate(batches):
             cases = [gen_case(rng, nmax, smax, maxops) for _ in range(count)]
+            if bi == 0:
+                cases = sweep_cases(rng, ctx.pick(12, 25)) + cases
+                ctx.extra["tilt_count_sweep"] = "every n in 2..%d" % ctx.pick(12, 25)
             if bi == len(batches) - 1 and not ctx.quick:
                 for c in cases[:20]:
                     c["n"] = 25                                       # the upper end of the quantifier
                     c["ops"] = [o for o in c["ops"][:1] if o["name"] in ("flip", "crop", "bin", "split")] or \
-                        [{"name": "flip", "axes": ["z", "x"], "io": "xyz", "oo": "zyx", "src": "file", "outf": True}]
+                        [{"name": "flip", "axes": ["z", "x"], "io": "xyz", "oo": "zyx", "src": "file", "outf": True, "af": "c"}]
             pc = write_params(ctx, "script%d" % bi, cases)
             res = ctx.tlc("MC_TiltStack", cfg("script", "NoStacks", "ScriptCases", "OneCfg", 12, True, invs=False),
                           name="script%d" % bi, env={"C15_PARAMS": pc}, workers=1)
